@@ -3,7 +3,7 @@ from props import S
 CFG = {
     "properties_file": "Properties/C26.v",
     "corr_files": ["Corr/C26.v", "Corr/C26x.v"],
-    "streams": [S("C26", "drive_nfs", 60, 2000), S("C26x", "drive_paging", 24, 800)],
+    "streams": [S("C26", "drive_nfs", 60, 400), S("C26x", "drive_paging", 24, 800)],
     "rule": "stream C26: directories of 0..40 entries (files, directories, symlinks), name lengths {1..8, 63, 64, 254, 255}, "
             "3..6 complete traversals per case following the returned cookies with one count / maxcount per traversal from "
             "{0, 50, 100, 108, 131..133, 140, 160, 200, 236, 240, 300, 400, 512, 700, 1000, 4096, 9000, random}, READDIR or "
